@@ -2,7 +2,9 @@ package in_toto
 
 import (
 	"context"
+	"crypto/ed25519"
 	"encoding/base64"
+	"encoding/hex"
 	"encoding/json"
 	"errors"
 	"fmt"
@@ -168,6 +170,12 @@ func (e *Envelope) Dump(path string) error {
 func getSignerVerifierFromKey(key Key) (dsse.SignerVerifier, error) {
 	sslibKey := getSSLibKeyFromKey(key)
 
+	// The signerverifier constructors and crypto/ed25519 panic when the key
+	// material contradicts the key type or has the wrong size
+	if err := validateKeyMaterial(key); err != nil {
+		return nil, err
+	}
+
 	switch sslibKey.KeyType {
 	case signerverifier.RSAKeyType:
 		return signerverifier.NewRSAPSSSignerVerifierFromSSLibKey(&sslibKey)
@@ -178,6 +186,28 @@ func getSignerVerifierFromKey(key Key) (dsse.SignerVerifier, error) {
 	}
 
 	return nil, ErrUnsupportedKeyType
+}
+
+// validateKeyMaterial checks that the public (and, if present, private) part
+// of the passed key can be used with the key's type: PEM encoded keys of the
+// matching type for RSA and ECDSA, hex strings of the right size for Ed25519.
+func validateKeyMaterial(key Key) error {
+	switch key.KeyType {
+	case rsaKeyType, ecdsaKeyType:
+		return validateKeyVal(key)
+	case ed25519KeyType:
+		public, err := hex.DecodeString(key.KeyVal.Public)
+		if err != nil || len(public) != ed25519.PublicKeySize {
+			return fmt.Errorf("%w: malformed ed25519 public key", ErrInvalidKey)
+		}
+		if key.KeyVal.Private != "" {
+			private, err := hex.DecodeString(key.KeyVal.Private)
+			if err != nil || (len(private) != ed25519.PrivateKeySize && len(private) != ed25519.SeedSize) {
+				return fmt.Errorf("%w: malformed ed25519 private key", ErrInvalidKey)
+			}
+		}
+	}
+	return nil
 }
 
 func getSSLibKeyFromKey(key Key) signerverifier.SSLibKey {
